@@ -53,6 +53,11 @@ type Budget struct {
 	ShrinkTry int
 }
 
+// RunWatchdog is the wall-clock backstop for one run (including its
+// enumeration passes). It is the only place a real clock influences a worker
+// besides the exploration budget; it never influences a run's outcome.
+var RunWatchdog = 120 * time.Second
+
 // VerifDir is where evidence/replays/known findings live.
 func VerifDir() string {
 	if d := os.Getenv("VERIF_DIR"); d != "" {
@@ -98,8 +103,21 @@ func RunWorker(c Check, tier string, seed uint64, worker, of int, b Budget) int 
 		idx := uint64(i*of + worker)
 		rs := tape.Mix(seed, idx)
 		tp := tape.New(rs)
+		if os.Getenv("VERIF_TRACE") != "" {
+			fmt.Fprintf(os.Stderr, "run idx=%d seed=%d\n", idx, rs)
+		}
 		opt := RunOpt{Tier: tier, WantSample: len(sum.Samples) < 2}
+		// Watchdog: a run takes milliseconds; one that takes minutes is a hang in
+		// the code under test (C03's business) or in the harness. It cannot be
+		// interrupted, so the worker reports it and exits 2 (never a VIOLATION of
+		// this property).
+		wd := time.AfterFunc(RunWatchdog, func() {
+			fmt.Printf("SUMMARY {\"worker\":%d,\"fatal\":\"run %d (run seed %d) did not return within %v: hang in the code under test or in the harness; reproduce with: verif one %s %d %s\"}\n",
+				worker, idx, rs, RunWatchdog, c.ID(), rs, tier)
+			os.Exit(2)
+		})
 		res := c.Run(tp, opt)
+		wd.Stop()
 		if res.Fatal != "" {
 			sum.Fatal = fmt.Sprintf("run %d (seed %d): %s", idx, rs, res.Fatal)
 			break
@@ -314,6 +332,21 @@ func RunMaster(c Check, tier string, seed uint64, workers int, b Budget, extraEn
 		for _, r := range s.Reported {
 			if old, ok := byClass[r.Violation.Class]; !ok || r.TapeLen < old.TapeLen {
 				byClass[r.Violation.Class] = r
+			}
+		}
+	}
+	// keep one replay file per class (the shortest), remove the others
+	keep := map[string]bool{}
+	for _, r := range byClass {
+		keep[r.Replay] = true
+	}
+	for _, s := range sums {
+		if s == nil {
+			continue
+		}
+		for _, r := range s.Reported {
+			if !keep[r.Replay] {
+				_ = os.Remove(r.Replay)
 			}
 		}
 	}
